@@ -5,6 +5,7 @@ package main
 import (
 	"bufio"
 	"fmt"
+	"reflect"
 	"strings"
 
 	am "github.com/hashicorp/go-argmapper"
@@ -323,4 +324,112 @@ func nestOf(f *filterSpec) int {
 		return 0
 	}
 	return f.nest
+}
+
+// ---------------------------------------------------------------- C10: Convert vs Call on an identity function
+
+var convTargets = []int{0, 1, 2, 3, 4, 5, tyI0, tyI1, tyI3, tyError, tyE0}
+
+func genConv(w *bufio.Writer, r *rng, id int) {
+	sc := genScenario(r, cfgGeneral)
+	T := convTargets[r.intn(len(convTargets))]
+	if len(sc.Funcs[0].Ins) > 0 && r.chance(3, 4) {
+		T = sc.Funcs[0].Ins[0].Ty // keep the chains generated for the first requirement relevant
+	}
+	sc.Funcs[0] = &fnSpec{ID: 0, Form: "pos", OForm: "pos", Ins: []lab{{Ty: T}}, Outs: []lab{{Ty: T}}, Script: "identity"}
+	sc.Defaults = 0
+	if r.chance(1, 6) { // a user converter of the identity's own Go type collides with the target vertex
+		f := cfgGeneral.newConv(r, sc, []lab{{Ty: T}}, []lab{{Ty: T}})
+		f.Form, f.OForm, f.HasErr, f.Script, f.Once = "pos", "pos", false, "ok", false
+		sc.Opts = append(sc.Opts, optSpecC{Kind: "conv", Fids: []int{f.ID}})
+	}
+	if err := sc.buildAll(); err != nil {
+		fmt.Fprintf(w, "scn conv %d builderr\nbuilderr %s\nend\n", id, strings.ReplaceAll(err.Error(), "\n", " "))
+		return
+	}
+	sc.header(w, "conv", id, fmt.Sprintf("T=%d", T))
+	fmt.Fprintln(w, sc.dumpGraph(false))
+	for rep := 0; rep < 4; rep++ {
+		fmt.Fprintf(w, "run %d\n", rep)
+		w.Flush()
+		if err := sc.buildAll(); err != nil {
+			fmt.Fprintf(w, "res builderr\n")
+			continue
+		}
+		if rep%2 == 0 {
+			for _, l := range sc.callOnce() {
+				fmt.Fprintln(w, l)
+			}
+			continue
+		}
+		// Convert with the same options
+		sc.events, sc.pops = nil, nil
+		am.VerifSetPopHook(func(h interface{}) { sc.pops = append(sc.pops, sc.hashName(h)) })
+		var out interface{}
+		var err error
+		var pan interface{}
+		func() {
+			defer func() { pan = recover() }()
+			out, err = am.Convert(tyOf(T), sc.callArgs(true)...)
+		}()
+		am.VerifSetPopHook(nil)
+		for _, l := range sc.events {
+			fmt.Fprintln(w, l)
+		}
+		switch {
+		case pan != nil:
+			fmt.Fprintf(w, "cv panic\nres panic %s\n", classifyPanic(pan))
+		case err != nil:
+			fmt.Fprintf(w, "cv nilvalue=%v\nres err %s\n", out == nil, sc.classifyErr(err))
+		default:
+			ov := reflect.ValueOf(out)
+			asg := ov.IsValid() && ov.Type().AssignableTo(tyOf(T))
+			if !ov.IsValid() {
+				asg = tyOf(T).Kind() == reflect.Interface || tyOf(T).Kind() == reflect.Ptr
+			}
+			fmt.Fprintf(w, "cv assignable=%v\nres ok %d\n", asg, vidOf(ov))
+		}
+	}
+	fmt.Fprintf(w, "end\n")
+}
+
+// ---------------------------------------------------------------- histories on shared function objects (C09, C11)
+
+var cfgOnce = func() genCfg { c := cfgGeneral; c.pOnce = 55; c.pFail = 12; c.pLeave = 2; return c }()
+
+func genHist(w *bufio.Writer, r *rng, id int) {
+	sc := genScenario(r, cfgOnce)
+	if err := sc.buildAll(); err != nil {
+		fmt.Fprintf(w, "scn hist %d builderr\nbuilderr %s\nend\n", id, strings.ReplaceAll(err.Error(), "\n", " "))
+		return
+	}
+	sc.header(w, "hist", id, "")
+	fmt.Fprintln(w, sc.dumpGraph(false))
+	n := 2 + r.intn(5)
+	for k := 0; k < n; k++ {
+		if r.chance(1, 3) {
+			fmt.Fprintf(w, "run %d redefine\n", k)
+			w.Flush()
+			before := 0
+			for _, f := range sc.Funcs {
+				before += f.execs
+			}
+			lines, _ := sc.redefineOnce(nil, nil)
+			for _, l := range lines {
+				fmt.Fprintln(w, l)
+			}
+			after := 0
+			for _, f := range sc.Funcs {
+				after += f.execs
+			}
+			fmt.Fprintf(w, "rdexecs %d\n", after-before)
+			continue
+		}
+		fmt.Fprintf(w, "run %d call\n", k)
+		w.Flush()
+		for _, l := range sc.callOnce() {
+			fmt.Fprintln(w, l)
+		}
+	}
+	fmt.Fprintf(w, "end\n")
 }
